@@ -329,6 +329,16 @@ func (p *oracle) judge(i int, line string, r *result) {
 			p.tbl[lower(cname)] = na
 			p.checkMask(i, line, r, na)
 		default: // refused
+			if a == nil && len(findByID(r.after, cname)) > 0 {
+				// an error was returned, but the account is there
+				key := "refused-sideeffect"
+				if exp == "invalid-id" || exp == "reserved" {
+					key = "register:accepted-invalid"
+				}
+				run.Fail(i, key, what(fmt.Sprintf("id %q (%s): an error was returned but the account exists now", r.args[0], exp)))
+				k := findByID(r.after, cname)[0]
+				p.tbl[lower(cname)] = &acct{id: cname, pw: r.args[1], locked: lockedPw(r.args[1]), email: padded(r.args[2], emSz), slot: k}
+			}
 			if exp == "ok" {
 				run.Fail(i, "register:refused-valid", what(fmt.Sprintf("id %q is well-formed, not reserved, not taken and %d slots are free", r.args[0], p.free())))
 			}
